@@ -939,7 +939,13 @@ func LogExpand(t *Term) *Term {
 				return nil, false
 			}
 			if x.c.Cmp(big.NewRat(1, 1)) != 0 {
-				s = fromAtom(intern("log", "", []*Term{Const(x.c)}))
+				// log(p/q) = log p - log q
+				if x.c.Num().Cmp(big.NewInt(1)) != 0 {
+					s = Add(s, fromAtom(intern("log", "", []*Term{Const(new(big.Rat).SetInt(x.c.Num()))})))
+				}
+				if x.c.Denom().Cmp(big.NewInt(1)) != 0 {
+					s = Sub(s, fromAtom(intern("log", "", []*Term{Const(new(big.Rat).SetInt(x.c.Denom()))})))
+				}
 			}
 			for _, f := range x.m {
 				var la *Term
